@@ -353,3 +353,44 @@ def rule_array_index(ck, facts, R):
             ck.bad(R, key, "array index %r into an array of %d elements selects element %s on the VM (%s arm) and element %s on WASM (%s then the host's clamp): the two back ends read/write different elements" % (bad[0], bad[1], bad[2], arm, bad[3], "+".join(sorted(conv_instrs))), vd.fn.where())
         else:
             ck.ok(R, key, {"arm": arm, "points": pts, "wasm_conversion": sorted(conv_instrs)})
+
+
+def rule_null_array(ck, facts, R):
+    """the WASM host treats the uninitialised-array sentinel handle as an empty array (reads give zeros); the VM must
+    special-case the same handle value or the two back ends differ (one panics on the handle lookup)"""
+    from .. import roles
+
+    ck.rule(R + " (null array handle)", "array element reads special-case the uninitialised-array sentinel handle on both back ends or on neither")
+    vd = roles.vm_dispatch(facts)
+    lang = facts.crate("mimium_lang")
+    host = [f for f in lang.fns if f.short.endswith("runtime::wasm::array_get_elem_host")]
+    if vd is None or len(host) != 1 or "GetArrayElem" not in vd.primary_handled():
+        ck.bad(R, "anchor|null-array", "VM GetArrayElem arm or WASM array_get_elem_host not found")
+        return
+
+    def sentinel_tests(fn, start, payload, stop):
+        sx = SymEx(fn, payload_place=payload, max_paths=200, max_steps=12000, facts=facts)
+        try:
+            paths = sx.run(start, stop_blocks=stop)
+        except PathLimit:
+            paths = sx.paths
+        tests = set()
+        for p in paths:
+            for c, v, pos in p.conds:
+                c = _strip(c)
+                if c[0] == "bin" and c[1] in ("eq", "ne"):
+                    a, b = _strip(c[2]), _strip(c[3])
+                    for x, k in ((a, b), (b, a)):
+                        if k[0] == "k" and isinstance(k[1], int) and not isinstance(k[1], bool) and ("i64" in str(k[2]) or "u64" in str(k[2])):
+                            tests.add((show(x)[:60], k[1]))
+        return tests
+
+    vm = sentinel_tests(vd.fn, vd.arm_target("GetArrayElem"), vd.primary.place, [vd.primary.block])
+    # only tests on the array handle operand (payload 1 of GetArrayElem / argument 3 of the host function)
+    vm_handle = {t for t in vm if "GetArrayElem.1" in t[0]}
+    wh = sentinel_tests(host[0], 0, None, [])
+    wasm_handle = {t for t in wh if t[0].strip().startswith("arg3") or t[0] == "arg3"}
+    if bool(vm_handle) == bool(wasm_handle):
+        ck.ok(R, "null-array|GetArrayElem", {"vm": sorted(vm_handle), "wasm": sorted(wasm_handle)})
+    else:
+        ck.bad(R, "null-array|GetArrayElem", "reading an element of the uninitialised/empty array handle: %s special-cases the handle value %s (yields zeros) while %s does not (the handle lookup aborts): indexing an empty array gives a value on one back end and a panic on the other" % (("WASM", sorted(wasm_handle), "the VM") if wasm_handle else ("the VM", sorted(vm_handle), "WASM")), vd.fn.where())
